@@ -118,7 +118,10 @@ def _expand(e, pos, z3, S):
 def small_scope(smt2, timeout_ms=10000):
     """progressive scopes: a model found at any scope is a genuine model of the original query"""
     last = ("unknown", "")
-    for S, tmo in ((2, 8000), (5, 12000), (SCOPE, max(timeout_ms, 20000))):
+    # 8 sits between 5 and the final scope: a delimiter-matching counterexample of size 3 was found at 8 in 250 s and not at
+    # all at 12 within the budgets (DESIGN.md 8.9)
+    steps = [(2, 8000), (5, 12000)] + ([(8, max(timeout_ms, 20000))] if SCOPE > 8 else []) + [(SCOPE, max(timeout_ms, 20000))]
+    for S, tmo in steps:
         r = _small_scope(smt2, tmo, S)
         if r[0] in ("sat", "sat-candidate"):
             return r
